@@ -28,7 +28,8 @@ MaxVer ==
     DeleteRecordsRequest               |-> <<-1, -1,  0,  0,  1,  1>>,
     OffsetFetchRequest                 |-> << 1,  2,  3,  3,  4,  6>>,
     DescribeGroupsRequest              |-> << 0,  0,  1,  1,  2,  4>>,
-    DeleteGroupsRequest                |-> <<-1, -1, -1, -1,  1,  2>> ]
+    DeleteGroupsRequest                |-> <<-1, -1, -1, -1,  1,  2>>,
+    DescribeLogDirsRequest             |-> <<-1, -1, -1,  0,  1,  1>> ]
 
 ApiOf ==
   [ CreateTopic                 |-> "CreateTopicsRequest",
@@ -38,10 +39,13 @@ ApiOf ==
     DeleteRecords               |-> "DeleteRecordsRequest",
     ListConsumerGroupOffsets    |-> "OffsetFetchRequest",
     DescribeConsumerGroups      |-> "DescribeGroupsRequest",
-    DeleteConsumerGroup         |-> "DeleteGroupsRequest" ]
+    DeleteConsumerGroup         |-> "DeleteGroupsRequest",
+    DescribeLogDirs             |-> "DescribeLogDirsRequest" ]
 
 CtlOps == {"CreateTopic", "DeleteTopic", "CreatePartitions", "AlterPartitionReassignments"}
-SpreadOps == {"DeleteRecords", "ListConsumerGroupOffsets", "DescribeConsumerGroups", "DeleteConsumerGroup"}
+SpreadOps == {"DeleteRecords", "ListConsumerGroupOffsets", "DescribeConsumerGroups", "DeleteConsumerGroup", "DescribeLogDirs"}
+\* operations whose result is keyed by the broker that answered
+FiledOps == {"DescribeLogDirs"}
 \* operations whose error value is a typed error carrying the broker's code
 TypedOps == {"CreateTopic", "DeleteTopic", "CreatePartitions", "DeleteConsumerGroup"}
 TypedCls == {"kerr", "topicerr", "tperr"}
@@ -134,9 +138,11 @@ CtlRetViol(case, att, res, tail) ==
    coordinates group i, itemv[i] the error code the owner reports for item i (0 = none),
    bfault[b] in {"none","conn","inc"} (whole request fails: connection dropped / answer
    without the topic or group).  reqs = sequence of [b, api, v, items, ans] with ans in
-   {"items","conn","inc"}.  res = [cls, code, reported]: reported = items whose error code
-   is visible in the value handed to the caller (DescribeConsumerGroups and
-   ListConsumerGroupOffsets return the per-item codes inside their result).           *)
+   {"items","conn","inc"}.  res = [cls, code, reported, filed]: reported = items whose error
+   code is visible in the value handed to the caller (DescribeConsumerGroups,
+   ListConsumerGroupOffsets and DescribeLogDirs return the per-item codes inside their
+   result); filed = pairs <<key, origin>>: the result holds, under broker id `key`, an answer
+   that broker `origin` gave (DescribeLogDirs; the brokers' answers are distinguishable).   *)
 
 SpreadReqViol(case, reqs) ==
   LET q == reqs[Len(reqs)]
@@ -160,6 +166,11 @@ SpreadRetViol(case, reqs, res) ==
      \* "an error reported by any broker or for any item makes the operation report an error"
      \cup When(failedWhole /\ res.cls = "nil", "broker_error_reported")
      \cup When(res.cls = "nil" /\ \E i \in badItems : i \notin res.reported, "item_error_reported")
+     \* "report its verdict": what a broker answered is handed to the caller as THAT broker's answer
+     \cup When(\E p \in res.filed : p[1] # p[2], "answer_filed_under_its_broker")
+     \cup When(case.op \in FiledOps /\ res.cls = "nil"
+               /\ \E k \in 1..Len(reqs) : reqs[k].ans = "items" /\ \E i \in reqs[k].items : <<i, i>> \notin res.filed,
+               "answer_filed_under_its_broker")
      \* ... and it reports the brokers' verdict: all brokers content => success
      \cup When(allOk /\ ~(res.cls = "nil" /\ res.reported = {}) /\ res.cls \notin {"hang", "panic"},
                "all_ok_reported_as_success")
